@@ -186,6 +186,8 @@ def families(eng, tier, seed):
         fams.append(Family("all-strings-len-%d" % n, (lambda n: lambda eng: sym_chars(eng, n))(n), make_run(None, None),
                            witnesses=("copied",) + (("nested",) if n >= 2 else ()), on_panic=on_panic,
                            target_prefixes=1 if n < 4 else 256))
+    for f in fams:
+        if f.name in ("all-strings-len-%d" % k for k in range(0, 5 if tier == "quick" else 6)): f.partition = True
     # boundary families for the 32-character look-ahead: pre OPEN fill^k CLOSE post
     ks = range(28, 36) if tier == "quick" else range(24, 41)
     pres = ["", "a", "(", "<", "{"] if tier == "quick" else ["", "a", ",", "(", "<", "{", "((", "<(", "(<", "{(", "a,"]
